@@ -1101,6 +1101,19 @@ class Mesh:
         indexing = np.hstack(tuple([t[ix] for ix in indices]))
         sorted_indexing = np.sort(indexing, axis=0)
 
+        if sorted_indexing.shape[0] > 2:
+            # an index listed twice pads an entity with fewer vertices
+            # (the triangular facets of prisms): the entity must not depend
+            # on which of its vertices is repeated, so repeat the largest
+            dup = sorted_indexing[1:] == sorted_indexing[:-1]
+            cols = np.nonzero(dup.sum(axis=0) == 1)[0]
+            if len(cols) > 0:
+                keep = np.vstack((np.ones(len(cols), dtype=bool),
+                                  ~dup[:, cols]))
+                verts = (sorted_indexing[:, cols].T[keep.T]
+                         .reshape(len(cols), -1).T)
+                sorted_indexing[:, cols] = np.vstack((verts, verts[-1]))
+
         sorted_indexing, ixa, ixb = np.unique(sorted_indexing,
                                               axis=1,
                                               return_index=True,
